@@ -635,7 +635,7 @@ func (e *Encoder) encodeStruct(st reflect.Value) error {
 				return err
 			}
 
-			err = e.encode(st.Field(i))
+			err = e.encode(structField(st, i))
 			if err != nil {
 				return err
 			}
@@ -661,6 +661,26 @@ func (e *Encoder) encodeStruct(st reflect.Value) error {
 	}
 
 	return e.emit(opDict)
+}
+
+// structField returns i'th field of struct st.
+//
+// A tagged field can be unexported. For such field the value that reflect
+// returns does not allow Interface, which encode needs. Work around the
+// protection via unsafe. See eq_Struct_Struct for details.
+func structField(st reflect.Value, i int) reflect.Value {
+	f := st.Field(i)
+	ftyp := st.Type().Field(i)
+	if !ftyp.IsExported() {
+		if !f.CanAddr() {
+			// switch st to addressable copy
+			st_ := reflect.New(st.Type()).Elem()
+			st_.Set(st)
+			f = st_.Field(i)
+		}
+		f = reflect.NewAt(ftyp.Type, f.Addr().UnsafePointer()).Elem()
+	}
+	return f
 }
 
 func reflectValueOf(v any) reflect.Value {
